@@ -13,16 +13,37 @@ EITHER zones:
   E3  canonicalise()/subset() with migrations raise TSK_ERR_MIGRATIONS_NOT_SUPPORTED by design; tables after a
       failed call are unspecified.  Accepted: a LibraryError, or a result that still has every migration row.
   E4  compute_mutation_times: "evenly spread along the edge" fixes the value only up to rounding -> rtol 1e-9.
-  E5  negative edge_start: any tskit/Python error is accepted (must not be silently treated as 0 .. len).
+  E5  negative edge_start / site_start / mutation_start and values beyond ssize_t: any tskit/Python error is
+      accepted (must not be silently treated as 0 .. len).  In-range invalid values must raise a LibraryError.
   E6  sort_individuals: only "parents before children" + consistent remapping is documented, not the order.
-"""
-import itertools
+  E7  compute_mutation_parents / compute_mutation_times on a collection without an index: a LibraryError or the
+      right answer (the docstrings only say "must be indexed" for the times).
+  E8  EdgeTable.squash with overlapping pieces of one (parent, child): undocumented, never generated.
 
+Widened by the audit (lib/props/AUDIT-C07.md): every argument form of sort() / canonicalise() incl. the low-level
+methods (SORT_FORMS, CANON_FORMS), collections that arrived through copy / fromdict / pickle / dump+load /
+set_columns (BUILD_FORMS), metadata schemas + top-level metadata / time units / reference sequence / provenance
+that every operation must leave alone (dress, check_untouched), five routes from the repaired tables to a
+TreeSequence (LOAD_FORMS), start arguments at every boundary (sort_args), 3+ rows per site position, all rows at one
+position, 0.0 / -0.0 (run_dedup), one-ulp gaps / 300 pieces / the edge table of a collection (run_squash), large
+instances (run_big: >= 256 rows per key group, > 64 KiB ragged columns and single rows, mutation / individual
+parent chains deeper than 256), > 2^16 rows (run_huge), empty / one-row tables (run_tiny), cross-operation laws
+(canon_cross_checks, sort:partial-then-full).
+"""
+import bisect
+import hashlib
+import itertools
+import math
+import os
+import pickle
+import tempfile
+
+import numpy as np
 import tskit
 
 from lib import gen
 from lib.harness import case_rng
-from lib.model import NULL, allele_at, forest, isclose, mutation_parents
+from lib.model import NODE_IS_SAMPLE, NULL, RowModel, allele_at, forest, isclose, mutation_parents
 from lib.props.c14 import (_first_diff, _msorted, bad_offsets, compare_individuals, diff_models, edge_key,
                            mask_individuals, msprime_model, read_back, ref_dedup_sites, ref_sort, ref_subset,
                            stale_index)
@@ -165,6 +186,36 @@ def split_sites(rng, m, same_ancestral):
     return out
 
 
+def multi_split_sites(rng, m, kmax=5, same_ancestral=True, p_split=0.6):
+    """Like split_sites, with up to kmax rows per position: the mutations of a site are dealt out to its rows in
+    consecutive chunks (some rows get none).  deduplicate_sites() gives the original back."""
+    out = m.copy()
+    sites, muts = [], [None] * len(m.mutations)
+    for j, s in enumerate(m.sites):
+        ks = m.site_mutations(j)
+        k = rng.randint(2, kmax) if rng.random() < p_split else 1
+        cuts = sorted(rng.randint(0, len(ks)) for _ in range(k - 1)) + [len(ks)]
+        lo = 0
+        for i, hi in enumerate(cuts):
+            row = len(sites)
+            if i == 0:
+                sites.append(s)
+            else:
+                anc = s[1] if same_ancestral else rng.choice(["A", "C", "G", "T", "", "dup"])
+                sites.append((s[0], anc, gen.rbytes(rng)))
+            for q in ks[lo:hi]:
+                mu = m.mutations[q]
+                muts[q] = (row,) + mu[1:]
+            lo = hi
+        if k > 1:
+            out.tags.add("duplicate-site-positions")
+        if k > 2:
+            out.tags.add("duplicate-site-positions:3+rows")
+    muts = [(s, u, d, p if (p != NULL and muts[p][0] == s) else NULL, t, md) for s, u, d, p, t, md in muts]
+    out.sites, out.mutations = sites, muts
+    return out
+
+
 def arbitrary_parents(rng, m):
     """Referentially intact but otherwise arbitrary mutation parents: NULL or another mutation of the same site
     row that is not younger (the basic integrity rules every table operation enforces)."""
@@ -176,6 +227,207 @@ def arbitrary_parents(rng, m):
     m.mutations = muts
     m.tags.add("arbitrary-mutation-parents")
     return m
+
+
+# =========================================================================== entry points and argument forms
+# (AUDIT-C07.md gaps 1-9).  Every form below is documented to mean the same call; the oracles never depend on
+# the form, only the way the real code is reached does.
+
+TABLES7 = ("nodes", "edges", "sites", "mutations", "individuals", "populations", "migrations")
+TABLES8 = TABLES7 + ("provenances",)
+SSIZE_MIN, SSIZE_MAX = -2 ** 63, 2 ** 63 - 1
+ARGERR = (OverflowError, ValueError, TypeError)
+SORT_FORMS = ("pos+kw", "all-kw", "kw-reordered", "numpy", "ll-positional", "ll-kw", "defaults")
+CANON_FORMS = ("kw", "positional", "none", "omitted", "int", "ll-kw", "ll-positional")
+BUILD_FORMS = ("copy", "fromdict", "pickle", "dump-load", "columns")
+LOAD_FORMS = ("indexed.tree_sequence", "unindexed.tree_sequence", "load_tables(build_indexes=True)",
+              "indexed.load_tables", "rebuilt-index.tree_sequence")
+_TMPDIR = "/dev/shm" if os.path.isdir("/dev/shm") else None
+
+
+def _np_int(rng, v):
+    """v as a numpy integer scalar of a random dtype that can hold it (all have __index__)."""
+    cands = [np.int64, np.intp]
+    if -2 ** 31 <= v < 2 ** 31:
+        cands.append(np.int32)
+    if -2 ** 15 <= v < 2 ** 15:
+        cands.append(np.int16)
+    if 0 <= v < 2 ** 32:
+        cands.append(np.uint32)
+    if 0 <= v < 256:
+        cands.append(np.uint8)
+    if v >= 0:
+        cands.append(np.uint64)
+    return rng.choice(cands)(v)
+
+
+def form_index(case):
+    """Cycles the argument forms deterministically: one step per round of KINDS (per case for big / huge)."""
+    return case["k"] if case["gen"] in ("big", "huge", "tiny") else case["k"] // len(KINDS)
+
+
+def call_sort(tc, es, ss, ms, form, rng):
+    """TableCollection.sort(edge_start, *, site_start, mutation_start) through one of its argument forms /
+    the low-level method it wraps."""
+    if form == "numpy" and all(SSIZE_MIN <= v <= SSIZE_MAX for v in (es, ss, ms)):
+        return tc.sort(_np_int(rng, es), site_start=_np_int(rng, ss), mutation_start=_np_int(rng, ms))
+    if form == "all-kw":
+        return tc.sort(edge_start=es, site_start=ss, mutation_start=ms)
+    if form == "kw-reordered":
+        return tc.sort(mutation_start=ms, edge_start=es, site_start=ss)
+    if form == "ll-positional":
+        return tc._ll_tables.sort(es, ss, ms)
+    if form == "ll-kw":
+        return tc._ll_tables.sort(mutation_start=ms, site_start=ss, edge_start=es)
+    if form == "defaults":
+        kw = {}
+        if es != 0:
+            kw["edge_start"] = es
+        if ss != 0:
+            kw["site_start"] = ss
+        if ms != 0:
+            kw["mutation_start"] = ms
+        return tc.sort(**kw)
+    return tc.sort(es, site_start=ss, mutation_start=ms)
+
+
+def call_canonicalise(tc, remove, form):
+    if form == "positional":
+        return tc.canonicalise(remove)
+    if form == "none":
+        # None is documented to mean the default (True); only usable for remove=True
+        return tc.canonicalise(None) if remove else tc.canonicalise(False)
+    if form == "omitted":
+        return tc.canonicalise() if remove else tc.canonicalise(remove_unreferenced=False)
+    if form == "int":
+        return tc.canonicalise(remove_unreferenced=int(remove))
+    if form == "ll-kw":
+        return tc._ll_tables.canonicalise(remove_unreferenced=remove)
+    if form == "ll-positional":
+        return tc._ll_tables.canonicalise(remove)
+    return tc.canonicalise(remove_unreferenced=remove)
+
+
+def _schema(name, kind):
+    if kind == "json":
+        return tskit.MetadataSchema({"codec": "json", "title": f"c07-{name}"})
+    return tskit.MetadataSchema({"codec": "struct", "type": "object", "title": f"c07-{name}",
+                                 "properties": {"x": {"type": "integer", "binaryFormat": "i"}}})
+
+
+def dress(rng, tc):
+    """Everything a sort / repair call must leave alone: a metadata schema on every table (set after the rows
+    exist: nothing in the sorted paths decodes row metadata), top-level metadata + schema, time units, a
+    reference sequence and provenance rows."""
+    for name in TABLES7:
+        r = rng.random()
+        if r < 0.55:
+            getattr(tc, name).metadata_schema = _schema(name, "json")
+        elif r < 0.8:
+            getattr(tc, name).metadata_schema = _schema(name, "struct")
+    if rng.random() < 0.7:
+        tc.metadata_schema = _schema("top", "json")
+        tc.metadata = {"c07": ["top", rng.randint(0, 9)]}
+    elif rng.random() < 0.5:
+        tc.metadata = bytes(rng.choice([0, 1, 97, 255]) for _ in range(rng.randint(1, 5)))
+    if rng.random() < 0.6:
+        tc.time_units = rng.choice(["generations", "ticks", "c07 units"])
+    if rng.random() < 0.6:
+        rs = tc.reference_sequence
+        rs.data = "ACGT" * rng.randint(0, 4) + "N"
+        if rng.random() < 0.5:
+            rs.url = "file://c07"
+        if rng.random() < 0.5:
+            rs.metadata_schema = _schema("refseq", "json")
+            rs.metadata = {"c07": "refseq"}
+    for k in range(rng.choice([0, 1, 1, 3])):
+        tc.provenances.add_row(record='{"c07": %d}' % k, timestamp="2026-01-0%dT00:00:00" % (k + 1))
+    return tc
+
+
+def _no_index(snapshot):
+    return [x for x in snapshot if not x[0].startswith("/indexes")]
+
+
+def materialise(tc, form):
+    """The same collection arrived at another way (AUDIT gap 4)."""
+    if form == "copy":
+        return tc.copy()
+    if form == "fromdict":
+        return tskit.TableCollection.fromdict(tc.asdict())
+    if form == "pickle":
+        return pickle.loads(pickle.dumps(tc))
+    if form == "dump-load":
+        fd, path = tempfile.mkstemp(prefix="c07-", suffix=".trees", dir=_TMPDIR)
+        os.close(fd)
+        try:
+            tc.dump(path)
+            return tskit.TableCollection.load(path)
+        finally:
+            os.unlink(path)
+    if form == "columns":
+        new = tc.copy()
+        for name in TABLES8:
+            t = getattr(new, name)
+            d = t.asdict()
+            d.pop("metadata_schema", None)
+            t.clear()
+            t.set_columns(**d)
+        return new
+    raise ValueError(form)
+
+
+def build_tc(m, brng=None, ctx=None, p_dress=0.5, p_form=0.3, index=False):
+    """RowModel -> TableCollection; with brng, dressed (schemas, top-level data) and / or re-materialised through
+    another construction path in a fixed share of the cases.  index=True: try build_index() (before the
+    re-materialisation, so that copies / files carry the index along)."""
+    tc = to_tables(m)
+    if brng is not None and brng.random() < p_dress:
+        dress(brng, tc)
+        ctx.feature("build:dressed")
+    if index:
+        try:
+            tc.build_index()
+        except LIBERR:
+            pass
+    if brng is None:
+        return tc
+    if brng.random() < p_form:
+        form = brng.choice(BUILD_FORMS)
+        new = materialise(tc, form)
+        if _no_index(tables_bytes(new)) == _no_index(tables_bytes(tc)):
+            ctx.feature("build:" + form)
+            tc = new
+        else:
+            # a copy / file round trip that loses data is what C05 / C13 check; not attributed to sort
+            ctx.count("build:materialised-copy-differs(ignored)")
+    else:
+        ctx.feature("build:add_row")
+    return tc
+
+
+def changed_keys(before, after):
+    b = {k: (t, v) for k, t, v in before}
+    a = {k: (t, v) for k, t, v in after}
+    return sorted(k for k in set(a) | set(b) if a.get(k) != b.get(k))
+
+
+def check_untouched(ctx, key, what, before, after, tables=(), exact=(), detail=None):
+    """Only the row columns of `tables` (never a metadata_schema), the columns listed in `exact` and the index
+    may differ between two tables_bytes snapshots; a key that disappeared counts as changed."""
+    ctx.count("untouched:schemas-toplevel-other-tables")
+    bad = []
+    for k in changed_keys(before, after):
+        parts = k.split("/")
+        if k in exact or parts[1] == "indexes":
+            continue
+        if len(parts) == 3 and parts[1] in tables and parts[2] != "metadata_schema":
+            continue
+        bad.append(k)
+    if bad:
+        ctx.violation(key, f"{what} changed {bad[:8]}; it may only reorder / rewrite rows of "
+                           f"{sorted(tables) + sorted(exact)}", detail)
+    return not bad
 
 
 # =========================================================================== reference semantics
@@ -273,13 +525,28 @@ EXH_BASES = {"quick": 6, "thorough": 60}
 EXH_TABLES = ("edges", "sites", "mutations", "migrations", "individuals", "populations")
 
 
+BIG_HEAD = {"quick": 35, "thorough": 400}     # large instances at the head of the stream (they always run) ...
+BIG_EVERY = {"quick": 600, "thorough": 350}   # ... and one every so many cases afterwards
+HUGE_HEAD = {"quick": 3, "thorough": 24}
+
+
 def cases(tier, seed):
+    for k in range(TINY_N):
+        yield {"gen": "tiny", "k": k}
+    for k in range(HUGE_HEAD[tier]):
+        yield {"gen": "huge", "k": k}
+    for k in range(BIG_HEAD[tier]):
+        yield {"gen": "big", "op": BIG_OPS[k % len(BIG_OPS)], "k": k}
     for b in range(EXH_BASES[tier]):
         for t in EXH_TABLES:
             yield {"gen": "exh", "base": b, "table": t, "rows": 4 if tier == "quick" else 5}
     n = QUICK_N if tier == "quick" else THOROUGH_N
+    nb = BIG_HEAD[tier]
     for k in range(n):
         yield {"gen": KINDS[k % len(KINDS)], "k": k}
+        if k % BIG_EVERY[tier] == BIG_EVERY[tier] - 1:
+            yield {"gen": "big", "op": BIG_OPS[nb % len(BIG_OPS)], "k": nb}
+            nb += 1
 
 
 def base_model(rng, migrations=None, big=None, tier="quick", **kw):
@@ -315,7 +582,8 @@ def base_model(rng, migrations=None, big=None, tier="quick", **kw):
 
 def run_case(case, ctx):
     fn = {"sort": run_sort, "repair": run_repair, "canon": run_canon, "parents": run_parents,
-          "dedup": run_dedup, "sortind": run_sortind, "squash": run_squash, "exh": run_exh}[case["gen"]]
+          "dedup": run_dedup, "sortind": run_sortind, "squash": run_squash, "exh": run_exh, "big": run_big,
+          "huge": run_huge, "tiny": run_tiny}[case["gen"]]
     fn(case, ctx)
 
 
@@ -329,32 +597,44 @@ def feat(ctx, m, *extra):
 # --------------------------------------------------------------------------- sort
 
 
-def check_sort_call(ctx, m, edge_start, site_start, mutation_start, detail, tag="sort", pre_index=False):
-    """Run tables.sort(...) on model m and compare with ref_sort.  Returns the sorted tables or None."""
+def check_sort_call(ctx, m, edge_start, site_start, mutation_start, detail, tag="sort", pre_index=False,
+                    brng=None, form="pos+kw", then_full=False):
+    """Run tables.sort(...) on model m and compare with ref_sort.  Returns the sorted tables or None.
+    brng: dress / re-materialise the collection (build_tc); form: argument form (call_sort); then_full: follow a
+    partial sort by a full sort() of the same object and compare that with the full reference sort too."""
     ne, ns, nmu = len(m.edges), len(m.sites), len(m.mutations)
-    tc = to_tables(m)
-    if pre_index:
-        # an index over the not-yet-sorted rows (possible when the edges already meet the weaker validity
-        # ordering): it must not survive the sort as a stale cache
-        try:
-            tc.build_index()
-        except LIBERR:
-            pre_index = False
+    # pre_index: an index over the not-yet-sorted rows (possible when the edges already meet the weaker validity
+    # ordering): it must not survive the sort as a stale cache
+    tc = build_tc(m, brng, ctx, index=pre_index)
+    pre_index = pre_index and tc.has_index()
     before = tables_bytes(tc)
-    args = f"sort(edge_start={edge_start}, site_start={site_start}, mutation_start={mutation_start})"
+    frng = brng if brng is not None else case_rng({"c07": "dtype"})
+    args = f"sort(edge_start={edge_start}, site_start={site_start}, mutation_start={mutation_start}) [form {form}]"
     skip = (site_start == ns and mutation_start == nmu)
     valid_sm = skip or (site_start == 0 and mutation_start == 0)
     try:
-        tc.sort(edge_start, site_start=site_start, mutation_start=mutation_start)
+        call_sort(tc, edge_start, site_start, mutation_start, form, frng)
         err = None
     except LIBERR as e:
         err = e
-    except (OverflowError, ValueError) as e:
+    except ARGERR as e:
         err = e
+    if any(not SSIZE_MIN <= v <= SSIZE_MAX for v in (edge_start, site_start, mutation_start)):
+        # E5: beyond ssize_t the argument parser refuses (OverflowError); any error is fine, success is not
+        ctx.count("sort:start-beyond-ssize_t(either error)")
+        if err is None:
+            ctx.violation(f"{tag}/invalid-start-accepted", f"{args} returned", detail)
+        return None
     if edge_start < 0:
         ctx.count("sort:negative-edge_start(either)")
         if err is None:
             ctx.violation(f"{tag}/negative-edge_start-accepted", f"{args} returned", detail)
+        return None
+    if site_start < 0 or mutation_start < 0:
+        # never 0 and never a length: documented as invalid; which error is raised is left open (E5)
+        ctx.count("sort:negative-site/mutation_start(either error)")
+        if err is None:
+            ctx.violation(f"{tag}/invalid-start-accepted", f"{args} returned", detail)
         return None
     if edge_start > ne or not valid_sm:
         ctx.count("sort:invalid-start-rejected")
@@ -376,7 +656,7 @@ def check_sort_call(ctx, m, edge_start, site_start, mutation_start, detail, tag=
         else:
             key = f"{tag}/broken-offsets/" + ",".join(which)
         ctx.violation(key, f"{args}: ragged column offsets invalid after the call: "
-                           f"{[(t, c, o) for t, c, o in bad][:2]} (input edges {m.edges})", detail)
+                           f"{[(t, c, o[:12]) for t, c, o in bad][:2]} (input edges {m.edges[:12]})", detail)
         return None
     exp = ref_sort(m, edge_start=edge_start, skip_sites=skip)
     nomd = lambda mm: _with_edges(mm, [e[:4] + (b"",) for e in mm.edges])  # noqa: E731
@@ -385,36 +665,47 @@ def check_sort_call(ctx, m, edge_start, site_start, mutation_start, detail, tag=
         if name == "edges" and edge_start > 0 and not [x for x in diff_models(nomd(got), nomd(exp), edge_start=edge_start)
                                                        if x[0] == "edges"]:
             key = f"{tag}/edge_start-metadata-offsets"  # same rows, metadata attached to the wrong ones
-        ctx.violation(key, f"{args} {name}: {msg}", detail)
-    # nodes, individuals, populations, provenances: byte-identical columns
+        ctx.violation(key, f"{args} {name}: {msg[:1500]}", detail)
+    # nodes, individuals, populations, provenances, every metadata schema, top-level metadata / schema, time
+    # units, reference sequence, sequence length: byte-identical
     after = tables_bytes(tc)
-    untouched = ("/nodes/", "/individuals/", "/populations/", "/provenances/", "/sequence_length", "/metadata",
-                 "/time_units", "/reference_sequence")
-    if skip:
-        untouched += ("/sites/", "/mutations/")
-    b = {k: v for k, _, v in before if k.startswith(untouched)}
-    a = {k: v for k, _, v in after if k.startswith(untouched)}
     ctx.count("sort:untouched-tables")
-    if a != b:
-        diff = sorted(k for k in set(a) | set(b) if a.get(k) != b.get(k))
-        ctx.violation(f"{tag}/untouched-table-changed", f"{args} changed columns {diff}", detail)
+    check_untouched(ctx, f"{tag}/untouched-table-changed", args, before, after,
+                    tables=("edges", "migrations") + (() if skip else ("sites", "mutations")), detail=detail)
     if pre_index:
         ctx.count("sort:indexed-input")
-    if pre_index and tc.has_index():
-        # sort() kept an index: it must be the index of the rows as they are now (dropping it is fine too)
+    if tc.has_index():
+        # sort() kept / made an index: it must be the index of the rows as they are now (dropping it is fine too)
         ctx.count("sort:index-after-sort")
         msg = stale_index(tc)
         if msg:
-            ctx.violation(f"{tag}/stale-index", f"{args}: {msg}; input edges {m.edges}", detail)
-    # idempotence
+            ctx.violation(f"{tag}/stale-index", f"{args}: {msg}; input edges {m.edges[:12]}", detail)
+    # idempotence (through another argument form)
     ctx.count("sort:idempotent")
+    form2 = SORT_FORMS[(SORT_FORMS.index(form) + 3) % len(SORT_FORMS)]
     try:
-        tc.sort(edge_start, site_start=ns if skip else 0, mutation_start=nmu if skip else 0)
+        call_sort(tc, edge_start, ns if skip else 0, nmu if skip else 0, form2, frng)
         again = tables_bytes(tc) if not bad_offsets(tc) else None
     except LIBERR as e:
         again = repr(e)
     if again != after:
-        ctx.violation(f"{tag}/not-idempotent", f"{args} applied twice differs from once", detail)
+        ctx.violation(f"{tag}/not-idempotent", f"{args} applied twice (second time as {form2}) differs from once",
+                      detail)
+    if then_full and (edge_start > 0 or skip) and again == after:
+        # the same object, sorted again from the start: same result as sorting the input in one go
+        ctx.count("sort:partial-then-full")
+        try:
+            tc.sort()
+            g2, bad2 = read_back(tc)
+        except LIBERR as e:
+            ctx.violation(f"{tag}/raised", f"sort() after {args} raised {e}", detail)
+            return None
+        if bad2:
+            ctx.violation(f"{tag}/broken-offsets/after-partial", f"sort() after {args}: {bad2[:2]}", detail)
+            return None
+        for name, msg in diff_models(g2, ref_sort(m))[:3]:
+            ctx.violation(f"{tag}/partial-then-full/{name}", f"sort() after {args}: {name}: {msg[:1500]}", detail)
+        return None
     return tc
 
 
@@ -425,29 +716,56 @@ def _with_edges(m, edges):
 
 
 def sort_args(rng, m):
+    """Every class of (edge_start, site_start, mutation_start): valid (0, 1, k, len-1, len), just past the end,
+    the 31 / 32 / 63 bit boundaries, beyond ssize_t, negative; site / mutation pairs (0, 0), (len, len), each
+    documented-invalid mix, off-by-one around the lengths, negative and wide values."""
     ne, ns, nmu = len(m.edges), len(m.sites), len(m.mutations)
     r = rng.random()
-    if r < 0.3:
+    if r < 0.28:
         es = 0
-    elif r < 0.45:
+    elif r < 0.40:
         es = min(1, ne)
-    elif r < 0.8:
+    elif r < 0.70:
         es = rng.randint(0, ne)
-    elif r < 0.9:
+    elif r < 0.76:
+        es = max(0, ne - 1)
+    elif r < 0.86:
         es = ne
+    elif r < 0.94:
+        es = rng.choice([ne + 1, ne + 1, ne + 2, ne + 1000, 2 ** 31 - 1, 2 ** 31, 2 ** 32, 2 ** 32 + ne, SSIZE_MAX])
     elif r < 0.96:
-        es = ne + rng.choice([1, 2, 1000])
+        es = rng.choice([SSIZE_MAX + 1, SSIZE_MIN - 1, 2 ** 64])
     else:
-        es = -rng.choice([1, 2, 2 ** 31])
+        es = -rng.choice([1, 2, 2 ** 31, 2 ** 63])
     r = rng.random()
     if r < 0.55:
         ss, ms = 0, 0
-    elif r < 0.85:
+    elif r < 0.82:
         ss, ms = ns, nmu
     else:
-        ss = rng.choice([0, ns, rng.randint(0, ns + 1), 1])
-        ms = rng.choice([0, nmu, rng.randint(0, nmu + 1), 1])
+        ss, ms = rng.choice([(ns, 0), (0, nmu), (ns - 1, nmu), (ns + 1, nmu), (ns, nmu + 1), (ns, nmu - 1), (1, 1),
+                             (ns + 1, nmu + 1), (-1, -1), (-1, 0), (0, -1), (-ns - 1, -nmu - 1),
+                             (2 ** 31, 2 ** 31), (ns + 2 ** 32, nmu + 2 ** 32), (2 ** 32, 2 ** 32),
+                             (SSIZE_MAX, SSIZE_MAX), (SSIZE_MAX + 1, 0), (ns, SSIZE_MIN - 1),
+                             (rng.randint(0, ns + 1), rng.randint(0, nmu + 1)),
+                             (rng.randint(0, ns + 1), rng.randint(0, nmu + 1))])
     return es, ss, ms
+
+
+def start_class(v, n):
+    if not SSIZE_MIN <= v <= SSIZE_MAX:
+        return "beyond-ssize_t"
+    if v < 0:
+        return "negative"
+    if v == 0:
+        return "0"
+    if v == n:
+        return "len"
+    if v < n:
+        return "len-1" if v == n - 1 else "k"
+    if v <= n + 2:
+        return "len+1/2"
+    return ">=2^31" if v >= 2 ** 31 - 1 else "len+big"
 
 
 def run_sort(case, ctx):
@@ -469,17 +787,24 @@ def run_sort(case, ctx):
         sm.tags.add("edges-valid-but-not-sort-order")
         pre = True
     es, ss, ms = sort_args(rng, sm)
-    feat(ctx, sm, f"sort:edge_start={'0' if es == 0 else ('len' if es == len(sm.edges) else ('k' if 0 < es < len(sm.edges) else 'invalid'))}",
-         f"sort:site/mutation_start={'0,0' if (ss, ms) == (0, 0) else ('len,len' if (ss, ms) == (len(sm.sites), len(sm.mutations)) else 'mixed')}")
-    if any(e[4] for e in sm.edges) and 0 < es < len(sm.edges):
+    form = SORT_FORMS[form_index(case) % len(SORT_FORMS)]
+    ne, ns, nmu = len(sm.edges), len(sm.sites), len(sm.mutations)
+    ec = start_class(es, ne)
+    feat(ctx, sm, f"sort:edge_start={ec if ec in ('0', 'len', 'k', 'len-1') else 'invalid'}",
+         f"sort:edge_start-class={ec}", f"sort:form={form}",
+         f"sort:site/mutation_start={'0,0' if (ss, ms) == (0, 0) else ('len,len' if (ss, ms) == (ns, nmu) else 'mixed')}")
+    if (ss, ms) not in ((0, 0), (ns, nmu)):
+        ctx.feature(f"sort:site/mutation_start-class={start_class(ss, ns)},{start_class(ms, nmu)}")
+    if any(e[4] for e in sm.edges) and 0 < es < ne:
         ctx.feature("sort:edge_start>0+edge-metadata")
-    _sig(ctx, case, ("sort", sm.signature(), es, ss, ms), nontrivial=len(sm.edges) + len(sm.mutations) + len(sm.migrations) > 1)
-    detail = {"model": sm.to_json(), "edge_start": es, "site_start": ss, "mutation_start": ms}
+    _sig(ctx, case, ("sort", sm.signature(), es, ss, ms), nontrivial=ne + nmu + len(sm.migrations) > 1)
+    detail = {"model": sm.to_json(), "edge_start": es, "site_start": ss, "mutation_start": ms, "form": form}
     if case["k"] < 40:
         ctx.sample({"case": case, **detail})
     if pre:
         ctx.feature("sort:index-attempted")
-    check_sort_call(ctx, sm, es, ss, ms, detail, pre_index=pre)
+    check_sort_call(ctx, sm, es, ss, ms, detail, pre_index=pre, brng=case_rng(case, "build"), form=form,
+                    then_full=rng.random() < 0.35)
 
 
 # --------------------------------------------------------------------------- repair pipeline
@@ -516,7 +841,13 @@ def run_repair(case, ctx):
     rng = case_rng(case)
     base = base_model(rng, tier=case["tier"])  # valid tree sequence: the content to be preserved
     unknown = not any(mu[4] is not None for mu in base.mutations)
-    dup = split_sites(rng, base, same_ancestral=not unknown) if rng.random() < 0.6 else base.copy()
+    r = rng.random()
+    if r < 0.42:
+        dup = split_sites(rng, base, same_ancestral=not unknown)
+    elif r < 0.6:
+        dup = multi_split_sites(rng, base, kmax=rng.choice([3, 4, 6]), same_ancestral=not unknown)
+    else:
+        dup = base.copy()
     pmode = rng.choice(["kept", "null", "arbitrary"])
     nmu = len(dup.mutations)
     if pmode == "null":
@@ -532,10 +863,22 @@ def run_repair(case, ctx):
     detail = {"scrambled": scr.to_json(), "base": base.to_json(), "with_times": with_times}
     if case["k"] < 40:
         ctx.sample({"case": case, "scrambled": scr.to_json()})
-    tc = to_tables(scr)
+    check_repair(ctx, case, rng, base, scr, with_times, detail)
+
+
+def check_repair(ctx, case, rng, base, scr, with_times, detail, big=False):
+    """The documented repair pipeline on the scrambled collection scr; the result must load and encode the trees
+    and genotypes of base."""
+    tc = build_tc(scr, case_rng(case, "build"), ctx)
+    start_bytes = tables_bytes(tc)
+    sform = SORT_FORMS[form_index(case) % len(SORT_FORMS)]
+    lform = LOAD_FORMS[form_index(case) % len(LOAD_FORMS)]
+    ctx.feature(f"repair:first-sort-form={sform}")
+    ctx.feature(f"repair:load-form={lform}")
+    detail["sort_form"], detail["load_form"] = sform, lform
     ref = scr
     # 1 sort
-    if not step(ctx, tc, "sort", tc.sort, detail):
+    if not step(ctx, tc, "sort", lambda: call_sort(tc, 0, 0, 0, sform, rng), detail):
         return
     ref = ref_sort(ref)
     ok = compare_step(ctx, tc, ref, "sort", detail)
@@ -562,9 +905,12 @@ def run_repair(case, ctx):
     ok = compare_step(ctx, tc, ref, "compute_mutation_parents", detail) and ok
     # 5 optional times
     if with_times:
+        rows_before = [(mu[0], mu[1], mu[2], mu[5]) for mu in from_tables(tc).mutations]
         if not step(ctx, tc, "compute_mutation_times", tc.compute_mutation_times, detail):
             return
         ctx.count("repair:compute_mutation_times")
+        if rows_before != [(mu[0], mu[1], mu[2], mu[5]) for mu in from_tables(tc).mutations]:
+            ctx.feature("repair:compute_mutation_times-resorted-the-rows")
         want = ref_mutation_times(ref)
         got = from_tables(tc)
         # the call may have re-sorted the rows: match them through (site, node, derived, metadata, rank on branch)
@@ -590,13 +936,47 @@ def run_repair(case, ctx):
     ok = compare_step(ctx, tc, ref, "final-sort", detail) and ok
     if not step(ctx, tc, "build_index", tc.build_index, detail):
         return
+    # the whole pipeline reorders / rewrites edge, migration, site and mutation rows and nothing else
+    check_untouched(ctx, "repair/untouched-table-changed", "the repair pipeline", start_bytes, tables_bytes(tc),
+                    tables=("edges", "migrations", "sites", "mutations"), detail=detail)
     ctx.count("repair:loads")
-    try:
-        ts = tc.tree_sequence()
-    except LIBERR as e:
-        ctx.violation("repair/result-does-not-load", f"repaired collection rejected by tree_sequence(): {e}", detail)
+    ts = load_as(ctx, tc, lform, detail)
+    if ts is None:
         return
-    check_same_content(ctx, ts, base, detail)
+    check_same_content(ctx, ts, base, detail, big=big)
+
+
+def load_as(ctx, tc, form, detail):
+    """The documented ways from an indexed / not yet indexed, sorted collection to a TreeSequence."""
+    ctx.count("repair:load-forms")
+    try:
+        if form == "unindexed.tree_sequence":
+            tc.drop_index()
+            if tc.has_index():
+                ctx.violation("repair/drop_index-kept-index", "has_index() is True after drop_index()", detail)
+            ts = tc.tree_sequence()
+            if not tc.has_index():
+                ctx.violation("repair/tree_sequence-built-no-index",
+                              "tree_sequence() on an unindexed collection is documented to build the index; "
+                              "has_index() is False afterwards", detail)
+            elif stale_index(tc):
+                ctx.violation("repair/tree_sequence-stale-index", stale_index(tc), detail)
+            return ts
+        if form == "load_tables(build_indexes=True)":
+            tc.drop_index()
+            return tskit.TreeSequence.load_tables(tc, build_indexes=True)
+        if form == "indexed.load_tables":
+            return tskit.TreeSequence.load_tables(tc)
+        if form == "rebuilt-index.tree_sequence":
+            tc.build_index()  # "any existing index is dropped"
+            msg = stale_index(tc)
+            if msg or not tc.has_index():
+                ctx.violation("repair/build_index-twice", f"build_index() on an indexed collection: {msg}", detail)
+            return tc.tree_sequence()
+        return tc.tree_sequence()
+    except LIBERR as e:
+        ctx.violation("repair/result-does-not-load", f"repaired collection rejected ({form}): {e}", detail)
+        return None
 
 
 def round_key(t):
@@ -632,7 +1012,22 @@ def adopt_times(ref, want, got):
     return out
 
 
-def check_same_content(ctx, ts, base, detail):
+def alleles_at_site(base, j, nodes):
+    """allele_at() for many nodes of one site with the per-site work done once (same definition: the derived
+    state of the last listed mutation on the nearest node at or above, else the ancestral state)."""
+    par = base.forest_at(base.sites[j][0])
+    by_node = {}
+    for k in base.site_mutations(j):
+        by_node[base.mutations[k][1]] = k
+    out = []
+    for u in nodes:
+        while u not in by_node and u in par:
+            u = par[u]
+        out.append(base.mutations[by_node[u]][2] if u in by_node else base.sites[j][1])
+    return out
+
+
+def check_same_content(ctx, ts, base, detail, big=False):
     """The loaded tree sequence encodes the trees and genotypes of the original (unscrambled) collection."""
     bps = base.breakpoints()
     ctx.count("repair:trees")
@@ -667,9 +1062,12 @@ def check_same_content(ctx, ts, base, detail):
         if v.site.position != base.sites[j][0]:
             ctx.violation("repair/content-sites", f"site {j} at {v.site.position} expected {base.sites[j][0]}", detail)
             return
-        fr = forest(base, base.sites[j][0])
         got = [v.alleles[g] for g in v.genotypes]
-        want = [allele_at(base, fr, j, u) for u in range(n)]
+        if big:
+            want = alleles_at_site(base, j, range(n))
+        else:
+            fr = forest(base, base.sites[j][0])
+            want = [allele_at(base, fr, j, u) for u in range(n)]
         if got != want:
             ctx.violation("repair/content-genotypes", f"site {j} (position {v.site.position}): alleles per node {got} "
                                                       f"expected {want}", detail)
@@ -699,15 +1097,23 @@ def run_canon(case, ctx):
     detail = {"scramble1": s1.to_json(), "scramble2": s2.to_json(), "remove_unreferenced": remove}
     if case["k"] < 40:
         ctx.sample({"case": case, "scramble1": s1.to_json()})
+    check_canon(ctx, case, rng, m, s1, s2, remove, detail)
+
+
+def check_canon(ctx, case, rng, m, s1, s2, remove, detail):
+    """canonicalise() of two row-permuted copies s1, s2 of m: identical, equal to the reference canonical form,
+    idempotent, consistent with sort()."""
     outs = []
-    omit_default = rng.random() < 0.5
+    cform = CANON_FORMS[form_index(case) % len(CANON_FORMS)]
+    ctx.feature(f"canon:form={cform}")
+    detail["form"] = cform
+    befores = []
     for s in (s1, s2):
-        tc = to_tables(s)
+        # the same dressing / construction path for both copies (same rng stream): they differ by row order only
+        tc = build_tc(s, case_rng(case, "build"), ctx, index=True)
+        befores.append(tables_bytes(tc))
         try:
-            if remove and omit_default:
-                tc.canonicalise()
-            else:
-                tc.canonicalise(remove_unreferenced=remove)
+            call_canonicalise(tc, remove, cform)
             outs.append(tc)
         except LIBERR as e:
             outs.append(e)
@@ -726,8 +1132,18 @@ def run_canon(case, ctx):
         if bad:
             ctx.violation("canonicalise/broken-offsets", f"{bad[:2]}", detail)
             return
+    for o, bb in zip(outs, befores):
+        check_untouched(ctx, "canonicalise/untouched-table-changed", f"canonicalise(remove_unreferenced={remove})",
+                        bb, tables_bytes(o), tables=("edges", "sites", "mutations", "individuals", "populations",
+                                                     "migrations"),
+                        exact=("/nodes/individual", "/nodes/population"), detail=detail)
+        if o.has_index():
+            ctx.count("canon:index-after-canonicalise")
+            msg = stale_index(o)
+            if msg:
+                ctx.violation("canonicalise/stale-index", msg, detail)
     ctx.count("canon:two-scrambles-identical")
-    b1, b2 = tables_bytes(outs[0]), tables_bytes(outs[1])
+    b1, b2 = _no_index(tables_bytes(outs[0])), _no_index(tables_bytes(outs[1]))
     if b1 != b2:
         cols = [k1 for (k1, _, v1), (k2, _, v2) in zip(b1, b2) if v1 != v2]
         g1, g2 = from_tables(outs[0]), from_tables(outs[1])
@@ -748,12 +1164,61 @@ def run_canon(case, ctx):
             break
     # individuals end up parents-first? (documented for sort_individuals only; not asserted)  idempotence:
     ctx.count("canon:idempotent")
+    cform2 = CANON_FORMS[(CANON_FORMS.index(cform) + 3) % len(CANON_FORMS)]
     try:
-        outs[0].canonicalise(remove_unreferenced=remove)
-        if tables_bytes(outs[0]) != b1:
-            ctx.violation("canonicalise/not-idempotent", "canonicalise twice differs from once", detail)
+        call_canonicalise(outs[0], remove, cform2)
+        if _no_index(tables_bytes(outs[0])) != b1:
+            ctx.violation("canonicalise/not-idempotent", f"canonicalise twice (second time as {cform2}) differs from "
+                                                         "once", detail)
     except LIBERR as e:
         ctx.violation("canonicalise/raised", f"second canonicalise raised {e}", detail)
+        return
+    canon_cross_checks(ctx, case, rng, s2, outs[0], b1, remove, detail)
+
+
+def unique_edge_and_migration_keys(m):
+    ek = [edge_key(m)(e) for e in m.edges]
+    gk = [(g[5], g[3], g[4], g[0], g[2]) for g in m.migrations]
+    return len(set(ek)) == len(ek) and len(set(gk)) == len(gk)
+
+
+def canon_cross_checks(ctx, case, rng, s2, canon_tc, canon_bytes, remove, detail):
+    """Two operations on one object / two routes to one result (AUDIT gap 12):
+    (1) sort() of a canonical collection changes nothing: the canonical order refines every key order of sort()
+        (sites and mutations are sorted stably, so rows that sort() considers tied stay put);
+    (2) canonicalise(sort(x)) == canonicalise(x): sort() is a row permutation of the non-node tables that keeps
+        the relative order of the mutations canonicalise() itself does not order.
+    Edges with equal (time, parent, child, left) are ordered arbitrarily by both (E1), so collections with such
+    ties are skipped."""
+    if not unique_edge_and_migration_keys(s2):
+        ctx.count("canon:cross-checks-skipped(tied edge keys)")
+        return
+    r = rng.random()
+    if r < 0.4:
+        ctx.count("canon:sort-after-canonicalise-is-noop")
+        try:
+            canon_tc.sort()
+        except LIBERR as e:
+            ctx.violation("canonicalise/then-sort-raised", f"sort() of a canonical collection raised {e}", detail)
+            return
+        if _no_index(tables_bytes(canon_tc)) != canon_bytes:
+            cols = changed_keys(canon_bytes, _no_index(tables_bytes(canon_tc)))
+            ctx.violation("canonicalise/then-sort-changes", f"sort() of a canonical collection changed {cols[:6]}: the "
+                                                            "canonical order is documented as stricter than sort()'s",
+                          detail)
+    elif r < 0.8:
+        ctx.count("canon:canonicalise-after-sort-same")
+        tc = build_tc(s2, case_rng(case, "build"), ctx, index=False)
+        try:
+            tc.sort()
+            tc.canonicalise(remove_unreferenced=remove)
+        except LIBERR as e:
+            ctx.violation("canonicalise/after-sort-raised", f"sort() then canonicalise() raised {e}", detail)
+            return
+        if _no_index(tables_bytes(tc)) != canon_bytes:
+            cols = changed_keys(canon_bytes, _no_index(tables_bytes(tc)))
+            ctx.violation("canonicalise/order-dependent", f"canonicalise() after sort() differs from canonicalise() of "
+                                                          f"the unsorted rows in {cols[:6]}", detail)
 
 
 # --------------------------------------------------------------------------- compute_mutation_parents
@@ -792,8 +1257,26 @@ def run_parents(case, ctx):
     detail = {"model": w.to_json(), "mode": mode}
     if case["k"] < 40:
         ctx.sample({"case": case, "model": w.to_json()})
-    tc = to_tables(w)
-    tc.build_index()
+    tc = build_tc(w, case_rng(case, "build"), ctx, index=True)
+    if not tc.has_index():
+        tc.build_index()
+    unindexed = mode != "swap" and rng.random() < 0.08
+    if unindexed:
+        # E7: neither docstring says what happens without an index ("must be ... indexed" for the times): a
+        # LibraryError, or the right answer
+        tc.drop_index()
+        which = rng.choice(["compute_mutation_parents", "compute_mutation_times"])
+        ctx.count("parents:unindexed(either error or right)")
+        ctx.feature(f"parents:unindexed:{which}")
+        try:
+            getattr(tc, which)()
+        except LIBERR:
+            return
+        got = from_tables(tc)
+        if which == "compute_mutation_parents" and [mu[3] for mu in got.mutations] != want:
+            ctx.violation("compute_mutation_parents/wrong-parent", f"without an index: parents "
+                          f"{[mu[3] for mu in got.mutations]} expected {want}", detail)
+        return
     before = tables_bytes(tc)
     try:
         tc.compute_mutation_parents()
@@ -824,9 +1307,11 @@ def run_parents(case, ctx):
                       f"parents {gp} expected {want} (nearest mutation above at the site); mutations "
                       f"{[(mu[0], mu[1]) for mu in m.mutations]}", detail)
     after = tables_bytes(tc)
-    diff = sorted(k for (k, _, v), (_, _, v2) in zip(before, after) if v != v2 and k != "/mutations/parent")
+    diff = [k for k in changed_keys(before, after) if k != "/mutations/parent"]
     if diff:
         ctx.violation("compute_mutation_parents/other-columns-changed", f"changed {diff}", detail)
+    if tc.has_index() and stale_index(tc):
+        ctx.violation("compute_mutation_parents/stale-index", stale_index(tc), detail)
 
 
 # --------------------------------------------------------------------------- deduplicate_sites
@@ -835,7 +1320,31 @@ def run_parents(case, ctx):
 def run_dedup(case, ctx):
     rng = case_rng(case)
     base = base_model(rng, migrations=False, tier=case["tier"])
-    m = split_sites(rng, base, same_ancestral=False)
+    mode = rng.choice(["pair"] * 4 + ["k-fold"] * 3 + ["all-same-position", "zero-and-negative-zero", "no-duplicates"])
+    if mode == "pair":
+        m = split_sites(rng, base, same_ancestral=False)
+    elif mode == "k-fold":
+        m = multi_split_sites(rng, base, kmax=rng.choice([3, 5, 9]), same_ancestral=False)
+    elif mode == "all-same-position" and base.sites:
+        # every row is a duplicate of the first (only referential integrity is needed here)
+        m = base.copy()
+        p0 = rng.choice([base.sites[0][0], 0.0, base.sites[-1][0]])
+        m.sites = [(p0, a, md) for _, a, md in base.sites]
+        m.mutations = [(s_, u, d, NULL, t, md) for s_, u, d, p, t, md in base.mutations]
+    elif mode == "zero-and-negative-zero" and base.sites:
+        # 0.0 and -0.0 are the same position; the first row stays
+        m = base.copy()
+        first = rng.choice([0.0, -0.0])
+        rest = [s_ for s_ in base.sites if s_[0] != 0.0]
+        shift = 2 - (len(base.sites) - len(rest))
+        m.sites = [(first, "A", gen.rbytes(rng)), (-first, "C", gen.rbytes(rng))] + rest
+        m.mutations = [(s_ + shift if base.sites[s_][0] != 0.0 else rng.randrange(2), u, d, NULL, t, md)
+                       for s_, u, d, p, t, md in base.mutations]
+        m.mutations.sort(key=lambda mu: mu[0])
+    else:
+        mode = "no-duplicates" if mode != "pair" else mode
+        m = base.copy()
+    ctx.feature(f"dedup:mode={mode}")
     unsorted = rng.random() < 0.25 and len({s[0] for s in m.sites}) > 1
     if unsorted:
         m = scramble(rng, m, tables={"sites"})
@@ -845,7 +1354,11 @@ def run_dedup(case, ctx):
     feat(ctx, m, "dedup:unsorted" if unsorted else "dedup:sorted")
     _sig(ctx, case, ("dedup", m.signature()), nontrivial=len(m.sites) > len({s[0] for s in m.sites}))
     detail = {"model": m.to_json()}
-    tc = to_tables(m)
+    check_dedup(ctx, case, m, unsorted, detail)
+
+
+def check_dedup(ctx, case, m, unsorted, detail):
+    tc = build_tc(m, case_rng(case, "build"), ctx, index=True)
     before = tables_bytes(tc)
     try:
         tc.deduplicate_sites()
@@ -872,11 +1385,27 @@ def run_dedup(case, ctx):
         if getattr(got, name) != getattr(exp, name):
             ctx.violation(f"deduplicate_sites/{name}", f"{name}: " + _first_diff(getattr(got, name), getattr(exp, name))
                           + f" (input sites {m.sites})", detail)
-    after = tables_bytes(tc)
-    diff = sorted(k for (k, _, v), (_, _, v2) in zip(before, after)
-                  if v != v2 and not k.startswith(("/sites/", "/mutations/site")))
-    if diff:
-        ctx.violation("deduplicate_sites/other-columns-changed", f"changed {diff}", detail)
+    check_untouched(ctx, "deduplicate_sites/other-columns-changed", "deduplicate_sites()", before, tables_bytes(tc),
+                    tables=("sites",), exact=("/mutations/site",), detail=detail)
+    if tc.has_index() and stale_index(tc):
+        ctx.violation("deduplicate_sites/stale-index", stale_index(tc), detail)
+    # a second call finds nothing to remove (not decidable when merging rows put known and unknown mutation times
+    # on one site: every table operation refuses such a collection)
+    kinds = {}
+    for mu in exp.mutations:
+        kinds.setdefault(mu[0], set()).add(mu[4] is None)
+    if any(len(v) > 1 for v in kinds.values()):
+        return
+    ctx.count("dedup:idempotent")
+    once = tables_bytes(tc)
+    try:
+        tc.deduplicate_sites()
+    except LIBERR as e:
+        ctx.violation("deduplicate_sites/raised", f"second call raised {e}", detail)
+        return
+    if tables_bytes(tc) != once:
+        ctx.violation("deduplicate_sites/not-idempotent", f"second call changed {changed_keys(once, tables_bytes(tc))}",
+                      detail)
 
 
 # --------------------------------------------------------------------------- sort_individuals
@@ -889,20 +1418,36 @@ def run_sortind(case, ctx):
     gen.decorate_pops_inds(rng, m, npop=rng.randint(0, 2), nind=nind, ordered_parents=rng.random() < 0.3)
     if rng.random() < 0.7:
         gen.decorate_meta(rng, m, tables=("nodes", "individuals", "populations"))
+    if nind and rng.random() < 0.3:
+        # up to four parents, the same parent listed twice, NULL between parents
+        acyclic = rng.random() < 0.7
+        inds = []
+        for i, (fl, loc, par, md) in enumerate(m.individuals):
+            pool = [NULL] + (list(range(i)) if acyclic else list(range(nind)))
+            par = tuple(rng.choice(pool) for _ in range(rng.choice([0, 1, 2, 3, 4])))
+            if len(par) >= 2 and rng.random() < 0.3:
+                par = (par[-1],) * len(par)
+            inds.append((fl, loc, par, md))
+        m.individuals = inds
+        m.tags.add("sortind:many-parents")
     m = scramble(rng, m, tables={"individuals"})
     selfp = any(i in par for i, (_, _, par, _) in enumerate(m.individuals))
     cyc = individual_cycle(m)
     feat(ctx, m, "sortind:cycle" if cyc else "sortind:acyclic")
     _sig(ctx, case, ("sortind", m.signature()), nontrivial=len(m.individuals) > 1)
     detail = {"model": m.to_json()}
-    tc = to_tables(m)
+    check_sort_individuals(ctx, case, m, cyc or selfp, detail)
+
+
+def check_sort_individuals(ctx, case, m, cyclic, detail):
+    tc = build_tc(m, case_rng(case, "build"), ctx, index=True)
     before = tables_bytes(tc)
     try:
         tc.sort_individuals()
         err = None
     except LIBERR as e:
         err = e
-    if cyc or selfp:
+    if cyclic:
         ctx.count("sortind:cycle-rejected")
         if err is None:
             ctx.violation("sort_individuals/cycle-accepted", f"individual parents {[i[2] for i in m.individuals]} contain "
@@ -927,11 +1472,10 @@ def run_sortind(case, ctx):
         ctx.violation("sort_individuals/content", msg, detail)
     if [nd[:3] + nd[4:] for nd in got.nodes] != [nd[:3] + nd[4:] for nd in m.nodes]:
         ctx.violation("sort_individuals/nodes-changed", "node columns other than individual changed", detail)
-    after = tables_bytes(tc)
-    diff = sorted(k for (k, _, v), (_, _, v2) in zip(before, after)
-                  if v != v2 and not k.startswith(("/individuals/", "/nodes/individual")))
-    if diff:
-        ctx.violation("sort_individuals/other-columns-changed", f"changed {diff}", detail)
+    check_untouched(ctx, "sort_individuals/other-columns-changed", "sort_individuals()", before, tables_bytes(tc),
+                    tables=("individuals",), exact=("/nodes/individual",), detail=detail)
+    if tc.has_index() and stale_index(tc):
+        ctx.violation("sort_individuals/stale-index", stale_index(tc), detail)
 
 
 def match_permuted_individuals(src, got):
@@ -946,10 +1490,14 @@ def match_permuted_individuals(src, got):
         for u, nd in enumerate(mm.nodes):
             if nd[3] != NULL:
                 refs.setdefault(nd[3], []).append(u)
-        sig = [repr((ind[0], ind[1], ind[3], len(ind[2]), tuple(refs.get(i, [])))) for i, ind in enumerate(mm.individuals)]
+        h = lambda x: hashlib.sha1(repr(x).encode()).hexdigest()  # noqa: E731  (keeps the signatures short)
+        sig = [h((ind[0], ind[1], ind[3], len(ind[2]), tuple(refs.get(i, [])))) for i, ind in enumerate(mm.individuals)]
         for _ in range(n + 1):
-            sig = [repr((sig[i], tuple(sig[p] if p != NULL else None for p in mm.individuals[i][2])))
+            new = [h((sig[i], tuple(sig[p] if p != NULL else None for p in mm.individuals[i][2])))
                    for i in range(len(sig))]
+            if len(set(new)) == len(set(sig)):
+                return new  # the partition is stable: further rounds add nothing
+            sig = new
         return sig
 
     a, b = refine(src), refine(got)
@@ -964,35 +1512,86 @@ def match_permuted_individuals(src, got):
 # --------------------------------------------------------------------------- EdgeTable.squash
 
 
+def split_for_squash(rng, edges, p_split=0.4, max_pieces=2, ulp_gaps=False):
+    """Cut edges into touching pieces (dyadic points, so every piece boundary is exact); with ulp_gaps some cuts
+    leave a gap of one ulp between the pieces: not adjacent, must not be merged."""
+    out = []
+    gaps = 0
+    for l, r, p, c, md in edges:
+        if rng.random() < p_split:
+            k = rng.randint(2, max_pieces)
+            cuts = sorted({l + (r - l) * i / 2 ** 10 for i in rng.sample(range(1, 2 ** 10), k - 1)})
+            bounds = [l] + cuts + [r]
+            for a_, b_ in zip(bounds, bounds[1:]):
+                left = a_
+                if ulp_gaps and a_ != l and rng.random() < 0.4:
+                    left = math.nextafter(a_, math.inf)
+                    gaps += 1
+                if left < b_:
+                    out.append((left, b_, p, c, b""))
+        else:
+            out.append((l, r, p, c, b""))
+    return out, gaps
+
+
 def run_squash(case, ctx):
     rng = case_rng(case)
     m = gen.gen_topology(rng, max_nodes=8, max_bp=6, unsquashed=rng.random() < 0.7)
     with_md = rng.random() < 0.15
-    edges = list(m.edges)
-    # split some edges further at dyadic points
-    out = []
-    for l, r, p, c, md in edges:
-        if rng.random() < 0.4:
-            mid = (l + r) / 2
-            out += [(l, mid, p, c, b""), (mid, r, p, c, b"")]
-        else:
-            out.append((l, r, p, c, b""))
+    r = rng.random()
+    if r < 0.08 and m.edges:
+        # 0, 1 or 2 rows (squash returns early below two rows)
+        m.edges = m.edges[:rng.choice([0, 1, 1, 2])]
+        ctx.feature("squash:0-2-rows")
+    ulp = rng.random() < 0.25
+    out, gaps = split_for_squash(rng, m.edges, max_pieces=rng.choice([2, 2, 3, 8]), ulp_gaps=ulp)
     rng.shuffle(out)
     if with_md and out:
         j = rng.randrange(len(out))
         out[j] = out[j][:4] + (b"x",)
-    feat(ctx, m, "squash:metadata" if with_md and out else "squash:plain")
+    if gaps:
+        ctx.feature("squash:one-ulp-gap")
+    attached = rng.random() < 0.4
+    feat(ctx, m, "squash:metadata" if with_md and out else "squash:plain",
+         "squash:table-of-a-collection" if attached else "squash:standalone-table")
     _sig(ctx, case, ("squash", tuple(out)), nontrivial=len(ref_squash(out)) < len(out))
-    detail = {"edges": [list(e[:4]) for e in out]}
-    t = tskit.EdgeTable()
-    for l, r, p, c, md in out:
-        t.add_row(l, r, p, c, metadata=md)
+    detail = {"edges": [list(e[:4]) for e in out], "attached": attached, "low_level": case["k"] % 3 == 0}
+    if detail["low_level"]:
+        ctx.feature("squash:low-level-method")
+    check_squash(ctx, case, m, out, with_md and bool(out), attached, detail)
+
+
+def check_squash(ctx, case, m, out, with_md, attached, detail):
+    """m: nodes (and anything else) of the collection the edge table belongs to; out: the edge rows to squash."""
+    src = m.copy()
+    src.edges = out
+    tc = None
+    if attached:
+        # the edge table of a TableCollection (EdgeTable is a view of the collection's memory); everything but the
+        # edge rows must stay as it is
+        src2 = src.copy()
+        tc = build_tc(src2, case_rng(case, "build"), ctx)
+        t = tc.edges
+        before = tables_bytes(tc)
+    else:
+        t = tskit.EdgeTable()
+        if out and len(out) % 2:
+            t.set_columns(left=[e[0] for e in out], right=[e[1] for e in out], parent=[e[2] for e in out],
+                          child=[e[3] for e in out], metadata=np.frombuffer(b"".join(e[4] for e in out), dtype=np.int8),
+                          metadata_offset=np.cumsum([0] + [len(e[4]) for e in out], dtype=np.uint64))
+        else:
+            for l, r, p, c, md in out:
+                t.add_row(l, r, p, c, metadata=md)
+    ll = detail.get("low_level", False)
     try:
-        t.squash()
+        if ll:
+            t.ll_table.squash()  # the method EdgeTable.squash forwards to
+        else:
+            t.squash()
         err = None
     except LIBERR as e:
         err = e
-    if with_md and out:
+    if with_md:
         ctx.count("squash:metadata-rejected")
         if err is None:
             ctx.violation("squash/metadata-accepted", "squash() with non-empty edge metadata returned", detail)
@@ -1004,14 +1603,563 @@ def run_squash(case, ctx):
     got = [(float(t.left[j]), float(t.right[j]), int(t.parent[j]), int(t.child[j]), b"") for j in range(t.num_rows)]
     exp = ref_squash(out)
     if got != exp:
-        ctx.violation("squash/rows", "squash(): " + _first_diff(got, exp) + f" input {out}", detail)
+        ctx.violation("squash/rows", "squash(): " + _first_diff(got, exp)[:1500] + f" input {out[:40]}", detail)
+    off = [int(x) for x in t.metadata_offset]
+    if off != [0] * (t.num_rows + 1) or len(t.metadata) != 0:
+        ctx.violation("squash/broken-offsets", f"metadata_offset {off[:20]} after squash() of rows without metadata",
+                      detail)
+    if attached:
+        ctx.count("squash:table-of-a-collection")
+        check_untouched(ctx, "squash/other-columns-changed", "edges.squash()", before, tables_bytes(tc),
+                        tables=("edges",), detail=detail)
     # content: same {child: parent} at every position
-    mm = m.copy()
+    mm = src.copy()
     mm.edges = got
-    for x in sorted({e[0] for e in out} | {(e[0] + e[1]) / 2 for e in out}):
-        if mm.forest_at(x) != m.forest_at(x):
-            ctx.violation("squash/content", f"forest at {x} changed: {mm.forest_at(x)} expected {m.forest_at(x)}", detail)
+    xs = sorted({e[0] for e in out} | {(e[0] + e[1]) / 2 for e in out} | {math.nextafter(e[1], -math.inf) for e in out})
+    if len(xs) > 150:
+        xs = xs[::len(xs) // 150 + 1]
+    for x in xs:
+        if mm.forest_at(x) != src.forest_at(x):
+            ctx.violation("squash/content", f"forest at {x} changed: {mm.forest_at(x)} expected {src.forest_at(x)}", detail)
             break
+    # squashing again finds nothing to merge
+    ctx.count("squash:idempotent")
+    try:
+        t.squash()
+    except LIBERR as e:
+        ctx.violation("squash/raised", f"second squash() raised {e}", detail)
+        return
+    again = [(float(t.left[j]), float(t.right[j]), int(t.parent[j]), int(t.child[j]), b"") for j in range(t.num_rows)]
+    if again != got:
+        ctx.violation("squash/not-idempotent", "squash() twice: " + _first_diff(again, got)[:1500], detail)
+
+
+# --------------------------------------------------------------------------- large / structurally extreme
+# (AUDIT-C07.md gaps 13-17): >= 256 rows per key group, > 64 KiB ragged columns, single rows > 64 KiB, chains of
+# mutation / individual parents deeper than 256, hundreds of duplicate site rows, 300 pieces of one edge.
+
+BIG_OPS = ("sort", "canon", "repair", "sortind", "dedup", "squash", "parents", "sort")
+BIG_SHAPES = ("star", "chain", "levels", "random", "broom")
+BIG_N = (255, 256, 257, 300, 420, 640)
+
+
+def fat_bytes(rng):
+    k = rng.choice([0, 3, 255, 256, 257, 512, 1000])
+    return rng.randbytes(k)
+
+
+def big_model(rng, shape=None, n=None, heavy=None, pedigree=None, migrations=False, stack=None, one_fat=None):
+    """A valid collection with n + 1 nodes in one of the extreme shapes, 1-3 trees, one heavy site (a mutation on
+    every node, or a stack of >= 255 mutations on one branch), optional fat metadata, populations, a pedigree of
+    individuals and migrations with tied keys.  Sorted, with reference mutation parents."""
+    shape = shape or rng.choice(BIG_SHAPES)
+    n = n or rng.choice(BIG_N)
+    N = n + 1
+    m = RowModel(float(rng.choice([1.0, 8.0, 100.0])))
+    m.tags |= {f"big:shape={shape}", f"big:nodes={N}"}
+    # node u gets rank r[u]; times are non-decreasing in rank
+    ranks = list(range(N))
+    rng.shuffle(ranks)  # ranks[u]: node ids are unrelated to age
+    by_rank = sorted(range(N), key=lambda u: ranks[u])
+    if shape == "chain":
+        tval = [i / 2 for i in range(N)]
+    elif shape == "star":
+        tval = [rng.choice([0.0, 0.0, 0.5, 1.0]) for _ in range(N - 1)] + [2.0]
+        tval.sort()
+    elif shape == "levels":
+        g = rng.choice([16, 64, 128])
+        tval = [float(i // g) for i in range(N)]
+    elif shape == "broom":
+        h = N // 2
+        tval = [0.0] * h + [1.0 + i for i in range(N - h)]
+    else:
+        tval = sorted(rng.randint(0, 60) / 2 for _ in range(N - 1))
+        tval.append(tval[-1] + 1.0)
+    time = [0.0] * N
+    for i, u in enumerate(by_rank):
+        time[u] = tval[i]
+    first_older = [bisect.bisect_right(tval, tval[i]) for i in range(N)]  # index in by_rank; N = nobody is older
+    pos = {u: i for i, u in enumerate(by_rank)}
+
+    def pick(u, again=False):
+        i = pos[u]
+        lo = first_older[i]
+        if lo >= N:
+            return NULL
+        if shape == "star":
+            return by_rank[N - 1] if not again else rng.choice([NULL, by_rank[N - 1]])
+        if shape == "chain":
+            return by_rank[lo] if not again else by_rank[min(N - 1, lo + rng.randint(0, 3))]
+        if shape == "broom":
+            return by_rank[lo]
+        if shape == "levels":
+            hi = lo
+            while hi < N and tval[hi] == tval[lo]:
+                hi += 1
+            return by_rank[rng.randrange(lo, hi)]
+        return by_rank[rng.randrange(lo, N)] if rng.random() < 0.97 else NULL
+
+    flags = [NODE_IS_SAMPLE if (time[u] == tval[0] or rng.random() < 0.05) else 0 for u in range(N)]
+    m.nodes = [(flags[u], time[u], NULL, NULL, b"") for u in range(N)]
+    nbp = rng.choice([0, 0, 1, 2])
+    bps = sorted(rng.sample([k * m.L / 16 for k in range(1, 16)], nbp))
+    bounds = [0.0] + bps + [m.L]
+    parent = {u: pick(u) for u in range(N)}
+    start = {u: 0.0 for u in range(N)}
+    edges = []
+    for i in range(1, len(bounds)):
+        x = bounds[i]
+        last = i == len(bounds) - 1
+        new = dict(parent)
+        if not last:
+            for u in rng.sample(range(N), max(1, N // 20)):
+                new[u] = pick(u, again=True)
+        for u in range(N):
+            if last or new[u] != parent[u]:
+                if parent[u] != NULL:
+                    edges.append((start[u], x, parent[u], u, b""))
+                start[u] = x
+        parent = new
+    m.edges = sorted(edges, key=edge_key(m))
+    # sites: one heavy, a few light
+    npos = rng.randint(1, 4)
+    positions = sorted(rng.sample([k * m.L / 64 for k in range(64)], npos))
+    if rng.random() < 0.5:
+        positions[0] = 0.0
+    heavy = heavy or rng.choice(["every-node", "stack", "stack", "few"])
+    m.tags.add(f"big:heavy-site={heavy}")
+    known = rng.random() < 0.35
+    hs = rng.randrange(npos)
+    muts = []
+    states = ["A", "C", "G", "T", "", "AC"]
+    for j, x in enumerate(positions):
+        par = m.forest_at(x)
+        plan = []
+        if j == hs and heavy == "every-node":
+            plan = list(range(N))
+        elif j == hs and heavy == "stack":
+            k = stack or rng.choice([255, 256, 257, 258, 300])
+            plan = [rng.randrange(N)] * k + [rng.randrange(N) for _ in range(rng.randint(0, 6))]
+            m.tags.add(f"big:stack={k}")
+        else:
+            plan = [rng.randrange(N) for _ in range(rng.choice([0, 1, 2, 5]))]
+        rows = []
+        for u in plan:
+            if known:
+                hi = time[par[u]] if u in par else time[u] + 2.0
+                t = time[u] + rng.randint(0, 7) * (hi - time[u]) / 8
+            else:
+                t = None
+            rows.append((u, rng.choice(states), t))
+        if known:
+            rows.sort(key=lambda z: (-z[2], -time[z[0]]))
+        else:
+            rows.sort(key=lambda z: -time[z[0]])
+        muts += [(j, u, d, NULL, t, b"") for u, d, t in rows]
+    m.sites = [(x, rng.choice(states[:4]), b"") for x in positions]
+    if rng.random() < 0.4:
+        # allele strings at the 8 / 16 bit length boundaries (the sorters copy them row by row)
+        j = rng.randrange(npos)
+        m.sites[j] = (m.sites[j][0], "A" * rng.choice([255, 256, 257, 65535, 65536, 65537]), b"")
+        if muts:
+            q = rng.randrange(len(muts))
+            muts[q] = muts[q][:2] + ("G" * rng.choice([255, 256, 257, 65535, 65536, 65537]),) + muts[q][3:]
+        m.tags.add("big:long-allele-strings")
+    m.mutations = muts
+    if known:
+        m.tags.add("mutation-times")
+    par_ = mutation_parents(m)
+    m.mutations = [(s_, u, d, par_[k], t, md) for k, (s_, u, d, _, t, md) in enumerate(m.mutations)]
+    depth = 0
+    for k in range(len(m.mutations)):
+        d_, p = 0, m.mutations[k][3]
+        while p != NULL:
+            d_, p = d_ + 1, m.mutations[p][3]
+        depth = max(depth, d_)
+    if depth >= 256:
+        m.tags.add("big:mutation-parent-chain>=256")
+    # populations / individuals
+    npop = rng.choice([0, 3, 300])
+    m.populations = [(gen.rbytes(rng),) for _ in range(npop)]
+    pedigree = pedigree or rng.choice(["none", "chain", "star", "dag", "dag"])
+    nind = 0 if pedigree == "none" else rng.choice([n // 2, n, 256, 300])
+    nind = min(nind, N)
+    inds = []
+    for i in range(nind):
+        if pedigree == "chain":
+            par = (i - 1,) if i else ()
+        elif pedigree == "star":
+            par = (0,) if i else ()
+        else:
+            par = tuple(rng.choice([NULL] + list(range(max(0, i - 40), i))) for _ in range(rng.choice([0, 1, 2, 2])))
+        inds.append((rng.choice([0, 1]), (), par, gen.rbytes(rng)))
+    m.individuals = inds
+    if nind:
+        m.tags.add(f"big:pedigree={pedigree}")
+    owners = list(range(N))
+    rng.shuffle(owners)
+    ind_of = {u: (i if i < nind else (rng.randrange(nind) if nind and rng.random() < 0.5 else NULL))
+              for i, u in enumerate(owners)}  # every individual is referenced by a node
+    m.nodes = [(fl, t, rng.randrange(npop) if npop and rng.random() < 0.8 else NULL, ind_of[u], gen.rbytes(rng))
+               for u, (fl, t, _, _, _) in enumerate(m.nodes)]
+    if migrations and npop:
+        tv = [rng.randint(0, 6) / 2 for _ in range(3)]
+        migs = []
+        for _ in range(rng.choice([255, 256, 300])):
+            a = rng.randint(0, 15)
+            migs.append((a * m.L / 16, rng.randint(a + 1, 16) * m.L / 16, rng.randrange(N), rng.randrange(min(npop, 3)),
+                         rng.randrange(min(npop, 3)), rng.choice(tv), gen.rbytes(rng)))
+        m.migrations = sorted(migs, key=lambda g: g[5])
+        m.tags.add("migrations")
+    # metadata: short everywhere; fat on some tables (ragged columns beyond 64 KiB); one row beyond 64 KiB
+    fat = {t for t in ("edges", "sites", "mutations", "migrations", "individuals", "populations") if rng.random() < 0.35}
+    m.edges = [e[:4] + (fat_bytes(rng) if "edges" in fat else gen.rbytes(rng),) for e in m.edges]
+    m.sites = [s_[:2] + (fat_bytes(rng) if "sites" in fat else gen.rbytes(rng),) for s_ in m.sites]
+    m.mutations = [mu[:5] + (fat_bytes(rng) if "mutations" in fat else gen.rbytes(rng),) for mu in m.mutations]
+    if "migrations" in fat:
+        m.migrations = [g[:6] + (fat_bytes(rng),) for g in m.migrations]
+    if "individuals" in fat:
+        m.individuals = [i_[:3] + (fat_bytes(rng),) for i_ in m.individuals]
+    if "populations" in fat:
+        m.populations = [(fat_bytes(rng),) for _ in m.populations]
+    if one_fat or rng.random() < 0.4:
+        cand = [t for t in ("edges", "sites", "mutations", "migrations", "individuals", "populations") if getattr(m, t)]
+        if cand:
+            t = one_fat if one_fat in cand else rng.choice(cand)
+            rows = getattr(m, t)
+            j = rng.randrange(len(rows))
+            rows[j] = rows[j][:-1] + (rng.randbytes(rng.choice([65535, 65536, 65537, 70001])),)
+            m.tags.add("big:one-row>64KiB")
+            m.tags.add(f"big:one-row>64KiB:{t}")
+    for t in ("edges", "sites", "mutations", "migrations", "individuals", "populations"):
+        if sum(len(r_[-1]) for r_ in getattr(m, t)) > 65536:
+            m.tags.add("big:ragged-column>64KiB")
+            m.tags.add(f"big:ragged-column>64KiB:{t}")
+    m.tags.add("metadata")
+    return m
+
+
+def slim_json(m):
+    """Replay detail for big models: the case descriptor regenerates everything; keep the detail small."""
+    return {"L": m.L, "rows": {t: len(getattr(m, t)) for t in TABLES7}, "tags": sorted(m.tags)}
+
+
+def run_big(case, ctx):
+    rng = case_rng(case)
+    op = case["op"]
+    ctx.feature(f"big:op={op}")
+    k = case["k"]
+    if op == "sort":
+        # a single row beyond 64 KiB in one of the sorted tables in 2 of 3 cases
+        m = big_model(rng, migrations=k % 2 == 0,
+                      one_fat=(["edges", "mutations", None, "edges", "migrations", "sites"][k % 6]))
+        if rng.random() < 0.4:
+            m = multi_split_sites(rng, m, kmax=rng.choice([3, 260]), same_ancestral=False, p_split=0.5)
+        sm = scramble(rng, m, free_mutations=rng.random() < 0.5, p_table=0.95)
+        ne, ns, nmu = len(sm.edges), len(sm.sites), len(sm.mutations)
+        es = rng.choice([0, 0, 1, 255, 256, 257, ne - 1, ne, rng.randint(0, ne), rng.randint(0, ne)])
+        es = max(0, min(es, ne))
+        ss, ms = rng.choice([(0, 0), (0, 0), (ns, nmu)])
+        form = SORT_FORMS[k % len(SORT_FORMS)]
+        feat(ctx, sm, f"big:sort:edge_start={start_class(es, ne)}")
+        _sig(ctx, case, ("big-sort", sm.signature(), es, ss, ms))
+        detail = {"model": slim_json(sm), "edge_start": es, "site_start": ss, "mutation_start": ms, "form": form}
+        ctx.count("big:sort")
+        check_sort_call(ctx, sm, es, ss, ms, detail, brng=case_rng(case, "build"), form=form, then_full=True)
+    elif op == "canon":
+        # always a chain of mutation parents deeper than 256 (the canonical mutation order counts descendants)
+        if rng.random() < 0.6:
+            m = big_model(rng, heavy="stack", stack=rng.choice([257, 258, 300, 513]))
+        else:
+            m = big_model(rng, heavy="every-node", shape=rng.choice(["chain", "broom"]), n=rng.choice([300, 420, 640]))
+        remove = rng.random() < 0.7
+        tabs = None
+        if not remove:
+            tabs = {"edges", "sites", "mutations"}
+            m = scramble(rng, m, tables={"individuals", "populations"})
+        s1 = scramble(rng, m, free_mutations=True, tables=tabs, p_table=0.95)
+        s2 = scramble(rng, m, free_mutations=True, tables=tabs, p_table=0.95)
+        feat(ctx, m, f"canon:remove_unreferenced={int(remove)}")
+        _sig(ctx, case, ("big-canon", s1.signature(), s2.signature(), remove))
+        detail = {"scramble1": slim_json(s1), "remove_unreferenced": remove}
+        ctx.count("big:canon")
+        check_canon(ctx, case, rng, m, s1, s2, remove, detail)
+    elif op == "repair":
+        base = big_model(rng, migrations=rng.random() < 0.4)
+        unknown = not any(mu[4] is not None for mu in base.mutations)
+        dup = multi_split_sites(rng, base, kmax=rng.choice([2, 5, 260]), same_ancestral=not unknown, p_split=0.7)
+        pmode = rng.choice(["kept", "null", "null"])
+        if pmode == "null":
+            dup.mutations = [(s_, u, d, NULL, t, md) for s_, u, d, p, t, md in dup.mutations]
+        scr = scramble(rng, dup, p_table=0.95)
+        with_times = rng.random() < 0.5
+        feat(ctx, scr, f"repair:parents-{pmode}", "repair:compute_mutation_times" if with_times else
+             "repair:no-compute_mutation_times")
+        _sig(ctx, case, ("big-repair", scr.signature(), with_times))
+        detail = {"scrambled": slim_json(scr), "with_times": with_times}
+        ctx.count("big:repair")
+        check_repair(ctx, case, rng, base, scr, with_times, detail, big=True)
+    elif op == "sortind":
+        m = big_model(rng, n=rng.choice([256, 300, 640]), heavy="few",
+                      pedigree=rng.choice(["chain", "star", "dag"]))
+        cyc = (k // len(BIG_OPS)) % 3 == 1
+        if cyc and len(m.individuals) > 2:
+            # close one long cycle: the first individual gets the last one as a parent
+            i0 = m.individuals[0]
+            if m.tags & {"big:pedigree=chain"}:
+                m.individuals[0] = i0[:2] + ((len(m.individuals) - 1,),) + i0[3:]
+            else:
+                j = rng.randrange(1, len(m.individuals))
+                m.individuals[j] = m.individuals[j][:2] + ((j,),) + m.individuals[j][3:]
+        m = scramble(rng, m, tables={"individuals"})
+        cyc = individual_cycle(m) or any(i in par for i, (_, _, par, _) in enumerate(m.individuals))
+        feat(ctx, m, "sortind:cycle" if cyc else "sortind:acyclic")
+        _sig(ctx, case, ("big-sortind", m.signature()))
+        ctx.count("big:sortind")
+        check_sort_individuals(ctx, case, m, cyc, {"model": slim_json(m)})
+    elif op == "dedup":
+        base = big_model(rng, heavy=rng.choice(["few", "stack"]))
+        m = multi_split_sites(rng, base, kmax=rng.choice([255, 256, 257, 300]), same_ancestral=False, p_split=0.8)
+        feat(ctx, m, "dedup:mode=k-fold(big)")
+        _sig(ctx, case, ("big-dedup", m.signature()))
+        ctx.count("big:dedup")
+        check_dedup(ctx, case, m, False, {"model": slim_json(m)})
+    elif op == "squash":
+        m = big_model(rng, heavy="few", pedigree="none")
+        edges = [e[:4] + (b"",) for e in m.edges]
+        if rng.random() < 0.5:
+            edges = rng.sample(edges, min(len(edges), 12))
+            out, gaps = split_for_squash(rng, edges, p_split=0.9, max_pieces=rng.choice([255, 256, 300]), ulp_gaps=True)
+        else:
+            out, gaps = split_for_squash(rng, edges, p_split=0.5, max_pieces=3, ulp_gaps=rng.random() < 0.5)
+        rng.shuffle(out)
+        attached = rng.random() < 0.5
+        m.sites, m.mutations, m.migrations = [], [], []
+        feat(ctx, m, "squash:plain", "squash:table-of-a-collection" if attached else "squash:standalone-table",
+             *(["squash:one-ulp-gap"] if gaps else []))
+        _sig(ctx, case, ("big-squash", tuple(out)))
+        ctx.count("big:squash")
+        check_squash(ctx, case, m, out, False, attached, {"edges": len(out), "attached": attached})
+    else:
+        m = big_model(rng, heavy=rng.choice(["every-node", "stack"]))
+        want = [mu[3] for mu in m.mutations]
+        w = m.copy()
+        w.mutations = [(s_, u, d, rng.choice([NULL, NULL, k_ - 1 if k_ and w.mutations[k_ - 1][0] == s_ else NULL]), t, md)
+                       for k_, (s_, u, d, p, t, md) in enumerate(m.mutations)]
+        feat(ctx, m, "parents:big")
+        _sig(ctx, case, ("big-parents", w.signature()))
+        detail = {"model": slim_json(w)}
+        tc = build_tc(w, case_rng(case, "build"), ctx, index=True)
+        if not tc.has_index():
+            tc.build_index()
+        before = tables_bytes(tc)
+        ctx.count("big:parents")
+        try:
+            tc.compute_mutation_parents()
+        except LIBERR as e:
+            ctx.violation("compute_mutation_parents/raised", f"raised on a valid sorted collection: {e}", detail)
+            return
+        gp = [int(x) for x in tc.mutations.parent]
+        if gp != want:
+            bad = [(k_, gp[k_], want[k_]) for k_ in range(len(want)) if gp[k_] != want[k_]][:5]
+            ctx.violation("compute_mutation_parents/wrong-parent",
+                          f"{len(want)} mutations: (row, parent, expected nearest mutation above) {bad}", detail)
+        diff = [k_ for k_ in changed_keys(before, tables_bytes(tc)) if k_ != "/mutations/parent"]
+        if diff:
+            ctx.violation("compute_mutation_parents/other-columns-changed", f"changed {diff}", detail)
+
+
+# --------------------------------------------------------------------------- empty and one-row tables
+# (AUDIT-C07.md gap 18): every operation on a collection with no rows at all / exactly one row per table is the
+# identity (compute_mutation_times excepted: it writes the one time).
+
+TINY_N = 3
+
+
+def run_tiny(case, ctx):
+    k = case["k"]
+    m = RowModel(1.0)
+    if k >= 1:
+        m.populations = [(b"p",)]
+        m.individuals = [(0, (0.5,), (), b"i")]
+        m.nodes = [(NODE_IS_SAMPLE, 0.0, 0, 0, b"n0"), (0, 1.0, NULL, NULL, b"")]
+        m.edges = [(0.0, 1.0, 1, 0, b"e")]
+        m.sites = [(0.0 if k == 1 else 0.5, "A", b"s")]
+        m.mutations = [(0, 0, "T", NULL, None, b"m")]
+    ctx.feature("tiny:empty" if k == 0 else "tiny:one-row-per-table")
+    _sig(ctx, case, ("tiny", k), nontrivial=False)
+    detail = {"model": m.to_json()}
+    mig = m.copy()
+    if k >= 1:
+        mig.migrations = [(0.0, 1.0, 0, 0, 0, 0.5, b"g")]
+    ops = [(f"sort[{f}]", mig, lambda tc, f=f: call_sort(tc, 0, 0, 0, f, case_rng(case)), ()) for f in SORT_FORMS]
+    ops += [("sort(len, len, len)", mig, lambda tc: tc.sort(len(m.edges), site_start=len(m.sites),
+                                                          mutation_start=len(m.mutations)), ()),
+            ("deduplicate_sites", mig, lambda tc: tc.deduplicate_sites(), ()),
+            ("build_index", mig, lambda tc: tc.build_index(), ()),
+            ("compute_mutation_parents", mig, lambda tc: (tc.build_index(), tc.compute_mutation_parents()), ()),
+            ("compute_mutation_times", mig, lambda tc: (tc.build_index(), tc.compute_mutation_times()),
+             ("/mutations/time",)),
+            ("sort_individuals", mig, lambda tc: tc.sort_individuals(), ()),
+            ("edges.squash", m.copy(), lambda tc: tc.edges.squash(), ())]
+    ops += [(f"canonicalise[{f}]", m, lambda tc, f=f: call_canonicalise(tc, True, f), ()) for f in CANON_FORMS]
+    ops += [("canonicalise(False)", m, lambda tc: tc.canonicalise(remove_unreferenced=False), ())]
+    for name, model, fn, may in ops:
+        src = model.copy()
+        if name == "edges.squash":
+            src.edges = [e[:4] + (b"",) for e in src.edges]
+        tc = to_tables(src)
+        before = _no_index(tables_bytes(tc))
+        ctx.count("tiny:identity")
+        try:
+            fn(tc)
+        except LIBERR as e:
+            ctx.violation("tiny/raised", f"{name} on {'an empty collection' if k == 0 else 'one row per table'} "
+                                         f"raised {e}", detail)
+            continue
+        diff = [x for x in changed_keys(before, _no_index(tables_bytes(tc))) if x not in may]
+        if diff or bad_offsets(tc):
+            ctx.violation("tiny/changed", f"{name} changed {diff} of a collection with "
+                                          f"{'no rows' if k == 0 else 'one row per table'}", detail)
+        if name == "compute_mutation_times" and k >= 1:
+            t = float(tc.mutations.time[0])
+            if not isclose(t, 0.5):
+                ctx.violation("repair/compute_mutation_times/values", f"single mutation on a branch from 0 to 1: time {t}",
+                              detail)
+        if name.startswith(("sort[", "canonicalise[")) and k >= 1:
+            try:
+                ts = tc.tree_sequence()
+                if ts.num_trees != 1 or ts.num_mutations != 1:
+                    ctx.violation("repair/content-trees", f"after {name}: {ts.num_trees} trees", detail)
+            except LIBERR as e:
+                ctx.violation("repair/result-does-not-load", f"after {name}: {e}", detail)
+
+
+# --------------------------------------------------------------------------- more than 2^16 rows
+# Built and compared column-wise with numpy (row tuples would dominate the run time); the expected permutation
+# comes from numpy.lexsort over the documented keys, which are unique here.
+
+
+def _ragged_rows(data, off):
+    b = np.asarray(data).tobytes()
+    off = [int(x) for x in off]
+    return [b[off[j]:off[j + 1]] for j in range(len(off) - 1)]
+
+
+def run_huge(case, ctx):
+    rng = case_rng(case)
+    nprng = np.random.default_rng(rng.getrandbits(64))
+    n = (65537, 65536, 66001)[case["k"] % 3]
+    npar = 3
+    L = 1.0
+    ctx.feature(f"huge:rows={n}")
+    tc = tskit.TableCollection(L)
+    ptime = [1.0, 1.0, 2.0]
+    rng.shuffle(ptime)
+    time = np.concatenate([np.zeros(n), np.array(ptime)])
+    flags = np.concatenate([np.ones(n, dtype=np.uint32), np.zeros(npar, dtype=np.uint32)])
+    order_nodes = nprng.permutation(n + npar)  # node ids unrelated to age
+    node_time = np.empty(n + npar)
+    node_flags = np.empty(n + npar, dtype=np.uint32)
+    node_time[order_nodes] = time
+    node_flags[order_nodes] = flags
+    tc.nodes.set_columns(flags=node_flags, time=node_time)
+    leaves, parents = order_nodes[:n], order_nodes[n:]
+    child = leaves[nprng.permutation(n)].astype(np.int32)
+    parent = parents[nprng.integers(0, npar, n)].astype(np.int32)
+    left = np.zeros(n)
+    right = np.full(n, L)
+    mdlen = nprng.integers(0, 3, n)
+    emd_off = np.concatenate([[0], np.cumsum(mdlen)]).astype(np.uint64)
+    emd = nprng.integers(-128, 128, int(emd_off[-1]), dtype=np.int8)
+    tc.edges.set_columns(left=left, right=right, parent=parent, child=child, metadata=emd, metadata_offset=emd_off)
+    # one mutation per site; sites and mutations in unrelated random orders
+    pos = nprng.permutation(2 ** 17)[:n] / 2 ** 17
+    anc = nprng.integers(65, 70, n, dtype=np.int8)
+    one = np.arange(n + 1, dtype=np.uint64)
+    smd_len = nprng.integers(0, 3, n)
+    smd_off = np.concatenate([[0], np.cumsum(smd_len)]).astype(np.uint64)
+    smd = nprng.integers(-128, 128, int(smd_off[-1]), dtype=np.int8)
+    tc.sites.set_columns(position=pos, ancestral_state=anc, ancestral_state_offset=one, metadata=smd,
+                         metadata_offset=smd_off)
+    msite = nprng.permutation(n).astype(np.int32)
+    mnode = leaves[nprng.integers(0, n, n)].astype(np.int32)
+    der = nprng.integers(97, 101, n, dtype=np.int8)
+    mmd_len = nprng.integers(0, 3, n)
+    mmd_off = np.concatenate([[0], np.cumsum(mmd_len)]).astype(np.uint64)
+    mmd = nprng.integers(-128, 128, int(mmd_off[-1]), dtype=np.int8)
+    tc.mutations.set_columns(site=msite, node=mnode, derived_state=der, derived_state_offset=one,
+                             parent=np.full(n, NULL, dtype=np.int32), time=np.full(n, tskit.UNKNOWN_TIME),
+                             metadata=mmd, metadata_offset=mmd_off)
+    es = (0, 65536, 65535, n - 1, n, 0, 1)[case["k"] % 7]
+    skip = case["k"] % 4 == 3
+    ss, ms = (n, n) if skip else (0, 0)
+    form = SORT_FORMS[case["k"] % len(SORT_FORMS)]
+    ctx.feature(f"huge:edge_start={es}")
+    detail = {"n": n, "edge_start": es, "skip_sites": skip, "form": form}
+    _sig(ctx, case, ("huge", n, es, skip, case["k"]))
+    before_nodes = [x for x in tables_bytes(tc) if x[0].startswith("/nodes")]
+    in_emd = _ragged_rows(emd, emd_off)
+    in_smd = _ragged_rows(smd, smd_off)
+    in_mmd = _ragged_rows(mmd, mmd_off)
+    try:
+        call_sort(tc, es, ss, ms, form, rng)
+    except LIBERR as e:
+        ctx.violation("sort/raised", f"sort(edge_start={es}, site_start={ss}, mutation_start={ms}) on {n} edges, sites "
+                                     f"and mutations raised {e}", detail)
+        return
+    ctx.count("huge:sort")
+    bad = bad_offsets(tc)
+    if bad:
+        ctx.violation("sort/broken-offsets/" + ",".join(sorted({f"{t}.{c}" for t, c, _ in bad})),
+                      f"{n} rows: {[(t, c, o[:6]) for t, c, o in bad][:2]}", detail)
+        return
+    # edges: rows before edge_start untouched, the rest by (time[parent], parent, child, left)
+    tail = np.arange(es, n)
+    perm = tail[np.lexsort((left[tail], child[tail], parent[tail], node_time[parent[tail]]))]
+    eperm = np.concatenate([np.arange(es), perm]).astype(np.int64)
+    e = tc.edges
+    ok = (np.array_equal(e.parent, parent[eperm]) and np.array_equal(e.child, child[eperm])
+          and np.array_equal(e.left, left[eperm]) and np.array_equal(e.right, right[eperm]))
+    if not ok:
+        j = int(np.flatnonzero((e.parent != parent[eperm]) | (e.child != child[eperm]))[:1].tolist()[0]) \
+            if len(e.parent) == n and ((e.parent != parent[eperm]) | (e.child != child[eperm])).any() else -1
+        ctx.violation("sort/edges", f"{n} edges, edge_start={es}: first wrong row {j}", detail)
+    elif _ragged_rows(e.metadata, e.metadata_offset) != [in_emd[j] for j in eperm]:
+        ctx.violation("sort/edges", f"{n} edges, edge_start={es}: metadata does not follow the rows", detail)
+    # sites by position (unique), mutation.site remapped, mutations by site
+    st, mt = tc.sites, tc.mutations
+    if skip:
+        sperm = np.arange(n)
+        mperm = np.arange(n)
+        want_msite = msite
+    else:
+        sperm = np.argsort(pos, kind="stable")
+        inv = np.empty(n, dtype=np.int32)
+        inv[sperm] = np.arange(n, dtype=np.int32)
+        new_site = inv[msite]
+        mperm = np.argsort(new_site, kind="stable")
+        want_msite = new_site[mperm]
+    if not (np.array_equal(st.position, pos[sperm]) and np.array_equal(st.ancestral_state, anc[sperm])
+            and _ragged_rows(st.metadata, st.metadata_offset) == [in_smd[j] for j in sperm]):
+        ctx.violation("sort/sites", f"{n} sites: rows are not the input rows in position order", detail)
+    if not (np.array_equal(mt.site, want_msite) and np.array_equal(mt.node, mnode[mperm])
+            and np.array_equal(mt.derived_state, der[mperm]) and (np.asarray(mt.parent) == NULL).all()
+            and tskit.is_unknown_time(mt.time).all()
+            and _ragged_rows(mt.metadata, mt.metadata_offset) == [in_mmd[j] for j in mperm]):
+        ctx.violation("sort/mutations", f"{n} mutations: rows are not the input rows in site order with remapped site "
+                                        "ids", detail)
+    if [x for x in tables_bytes(tc) if x[0].startswith("/nodes")] != before_nodes:
+        ctx.violation("sort/untouched-table-changed", "node table changed", detail)
+    # the sorted collection is a tree sequence with one tree
+    if es == 0 and not skip:
+        ctx.count("huge:loads")
+        try:
+            ts = tc.tree_sequence()
+            if ts.num_trees != 1 or ts.num_sites != n or ts.num_edges != n:
+                ctx.violation("repair/content-trees", f"{ts.num_trees} trees, {ts.num_sites} sites", detail)
+        except LIBERR as e_:
+            ctx.violation("repair/result-does-not-load", f"sorted collection of {n} rows rejected: {e_}", detail)
 
 
 # --------------------------------------------------------------------------- exhaustive small scope
